@@ -10,7 +10,7 @@ namespace Mpir.Ops.Threads
 open Mpir
 def handle : Handler
   | "threads", [.num _, .num _, .num _] => some [natTok 0]
-  | "threadsx", [.num _, .num _, .num _, .num p] => if 0 ≤ p ∧ p ≤ 63 then some [natTok 0] else none
+  | "threadsx", [.num _, .num _, .num _, .num p] => if 0 ≤ p ∧ p ≤ 127 then some [natTok 0] else none
   | "cells_trace", [.vec codes] =>
       match Threads.decodeCalls codes with
       | some calls => some [.vec (Threads.runApi Threads.cells0 calls).2]
